@@ -290,13 +290,11 @@ def run_watched(path, args, lines, case_timeout=90, max_hangs=3):
                 break
             if item is None:
                 rc = p.wait()
-                if i < len(lines) and len(out) < len(lines):
-                    if rc != 0 or len(out) < i + 1:
-                        # the process ended before printing this case's line
-                        if len(out) == i:
-                            out.append("<crash rc=%s>" % rc)
-                            i += 1
-                            err += "harness ended with rc=%s at case %s\n" % (rc, lines[i - 1][:120])
+                if i < len(lines):
+                    # the process ended before printing this case's line
+                    out.append("<crash rc=%s>" % rc)
+                    err += "harness ended with rc=%s at case %s\n" % (rc, lines[i][:160])
+                    i += 1
                 break
             out.append(item)
             i += 1
